@@ -51,6 +51,9 @@ fn run_case(line: &str, out: &mut impl Write) {
     let id = t.next().to_string();
     // a trailing `S`: the threads share the ORIGINAL by reference (scoped threads) instead of working through clones of it
     let fallback = t.next().to_string();
+    // a trailing `R`: the original is ended by Termination::report() instead of verify()
+    let report = fallback.contains('R');
+    let fallback: String = fallback.chars().filter(|c| *c != 'R').collect();
     let shared = fallback.ends_with('S');
     let partial = fallback.trim_end_matches('S') == "partial";
     let terms = caseparse::parse_terms(&mut t);
@@ -134,6 +137,17 @@ fn run_case(line: &str, out: &mut impl Write) {
     }
     for (tid, res) in outcomes.iter().enumerate() {
         writeln!(out, "T{tid} {}", res.join("|")).unwrap();
+    }
+    if report {
+        use std::process::{ExitCode, Termination};
+        match catch_unwind(AssertUnwindSafe(move || original.report())) {
+            Ok(code) => {
+                let name = if format!("{code:?}") == format!("{:?}", ExitCode::SUCCESS) { "SUCCESS" } else { "FAILURE" };
+                writeln!(out, "verify:exit:{name}").unwrap()
+            }
+            Err(p) => writeln!(out, "verify:P:{}", esc(&panic_text(p))).unwrap(),
+        }
+        return;
     }
     let v = catch_unwind(AssertUnwindSafe(move || original.verify()));
     match v {
